@@ -2,11 +2,12 @@
 from pyvc.report import PropertyRun
 from .common import run_contracts_sel
 from .runtime_common import RUNTIME, RUNTIME_ASSUMPTIONS
+from contracts.value_c import VALUE_COMPARE
 
 
 def run(tier):
     pr = PropertyRun('C05', tier)
-    run_contracts_sel(pr, RUNTIME, tier, 'C05')
+    run_contracts_sel(pr, RUNTIME + [VALUE_COMPARE], tier, 'C05')
     pr.assumptions += RUNTIME_ASSUMPTIONS + [
         'may-raise models of CPython operators are necessary conditions (over-approximate): ZeroDivisionError iff divisor 0; OverflowError for int->float coercion iff |i| >= 2**1024-2**970, may for float ** and huge int /; timedelta/datetime range OverflowError; TypeError/IndexError/KeyError exactly as CPython for the value kinds of the logic',
         'library functions are covered through the call wrapper: any Exception subclass they raise becomes null / the failure value (their own exception sets are proved in C15)',
